@@ -51,6 +51,16 @@ def gen(rng, k):
                 L.append("H %d %s %d" % (hid, r.choice(["rslv_cancel", "rslv_destroy"]), o))
             else:
                 L.append("H %d %s %d" % (hid, r.choice(["cancel", "destroy"]), o))
+        # waits on timers that are expired already - one that was never armed, and the very timer whose
+        # wait is completing - started from inside a handler: they complete at once, but never inside
+        # async_wait() itself (C04), and whatever the memory the timer object was built in (C01)
+        if r.random() < 0.6:
+            L.append("H %d async_wait %d %d" % (hid, 300 + tid, 960 + (tid - 200) * 2))
+            L.append("H %d async_wait %d %d" % (hid, tid, 961 + (tid - 200) * 2))
+            L.append("H %d cancel %d" % (hid, 60))
+    if r.random() < 0.5:
+        # the same from main(): a wait on a timer that was never armed
+        L += ["M async_wait 62 905", "M cancel 62"]
     L.append("M run")
     # config lines (HOST) must precede; the drivers accept them anywhere
     return L
